@@ -161,6 +161,28 @@ theorem kernel_model_hits_consistent (s : Biogo.PalsKernel.Seqs)
   have ok := kernel_model_hits_under_contract s hvt hvq traps k minLen num den hml htr kh hk
   exact ⟨hit_under_contract_consistent _ _ _ ok hb, hit_under_contract_below_oracle _ _ _ ok hb⟩
 
+open Biogo.Proofs.PalsKernelSound in
+/-- **`kernel_model_split_hits_under_contract`** — the same for the recursion that also splits a
+    trapezoid by diagonals (`emittedWith true`: after an alignment it recurses into the diagonals to
+    the left and right of the alignment's band as well — the candidate repair of finding K6, which
+    the driver's K6 recogniser runs): every hit it emits is under contract, passes `consistent` and
+    respects the oracle.  So the recogniser never credits the repaired recursion with a hit that is
+    not a real alignment. -/
+theorem kernel_model_split_hits_under_contract (split : Bool) (s : Biogo.PalsKernel.Seqs)
+    (hvt : ∀ x ∈ s.target.toList, Biogo.PalsKernel.validLetter x = true)
+    (hvq : ∀ x ∈ s.query.toList, Biogo.PalsKernel.validLetter x = true)
+    (traps : List Biogo.PalsMerge.Trap) (k minLen num den : Int) (hml : 0 ≤ minLen)
+    (htr : TrapsIn s.qlen traps.toArray) :
+    ∀ kh ∈ Biogo.PalsKernel.emittedWith split palsCosts s traps k minLen num den,
+      HitOK palsMatrix s.target.toList s.query.toList ⟨kh.h, kh.lowDiagonal, kh.highDiagonal⟩ ∧
+      (kh.h.bbpos < kh.h.bepos →
+        consistent SameCost DiffCost ⟨kh.h, kh.lowDiagonal, kh.highDiagonal⟩ = true ∧
+        kh.h.score ≤ palsGlobal (slice s.target.toList kh.h.abpos kh.h.aepos) (slice s.query.toList kh.h.bbpos kh.h.bepos)) := by
+  intro kh hk
+  have ok : HitOK palsMatrix s.target.toList s.query.toList ⟨kh.h, kh.lowDiagonal, kh.highDiagonal⟩ :=
+    emittedWith_hitOK split palsCosts palsCosts_ok.1 palsCosts_ok.2.1 palsCosts_ok.2.2 s hvt hvq traps k minLen num den hml htr kh hk
+  exact ⟨ok, fun hb => ⟨hit_under_contract_consistent _ _ _ ok hb, hit_under_contract_below_oracle _ _ _ ok hb⟩⟩
+
 /-! non-vacuity: a 16-letter target repeated inside a 20-letter query, one trapezoid around the
 diagonal `q − t = 2`; the model emits one hit, the hypotheses of `kernel_model_hits_under_contract`
 hold and so does its conclusion -/
